@@ -184,9 +184,10 @@ def gen_file(rng, sheets):
                 sp.sb.put_formula(s, 5, r, text, cached=repr(cv))
                 exp['cached'] = ('num', cv)
             elif cached_kind == 'str':
-                sp.sb.put_formula(s, 5, r, text, cached='cached text',
-                                  ctype='str')
-                exp['cached'] = ('text', 'cached text')
+                ctext = rng.choice(['cached text', ' ', '  ', ' lead',
+                                    'trail ', 'a  b', 'TRUE', '12', '0'])
+                sp.sb.put_formula(s, 5, r, text, cached=ctext, ctype='str')
+                exp['cached'] = ('text', ctext)
             elif cached_kind == 'b':
                 sp.sb.put_formula(s, 5, r, text, cached='1', ctype='b')
                 exp['cached'] = ('bool', True)
